@@ -290,5 +290,9 @@ pub fn project(entry: &Path, src: &str) -> Result<(S, S), String> {
             plain.push(file(&raw));
         }
     }
+    // the declarations of `builtin.gom` (package Builtin): which names are builtins
+    let b = file(&compiler::builtins::get_builtin_ast());
+    plain.push(b.clone());
+    expanded.push(b);
     Ok((tagged("srcprog", plain), tagged("srcprog", expanded)))
 }
